@@ -2,6 +2,7 @@
 From Coq Require Import NArith Bool List.
 Import ListNotations.
 From XetModel Require Import Base.Codec Gen.ShardLayout Model.Merkle Model.Shard Proofs.CodecProofs Proofs.ShardProofs Proofs.DedupProofs Proofs.SearchProofs Model.Dedup Proofs.PipelineProofs Proofs.ResolveProofs Proofs.BytesProofs Proofs.ShardWholeProofs Proofs.ShardDedupWholeProofs.
+From XetModel Require Import Gen.ManagerFacts Model.Manager Proofs.ManagerProofs Proofs.ManagerWholeProofs.
 Open Scope N_scope.
 
 (* "truthful" (Proofs/DedupProofs.v): 1 <= n <= |qs|; the segment names xorb c, spans [a, a+n) within c's chunks;
@@ -78,6 +79,19 @@ Theorem C05_ondisk_complete_example :
               /\ exists c', In c' [dx_c1; dx_c2] /\ truthful zero_hash c' [repeat 14 32%nat; repeat 99 32%nat] n s.
 Proof. exact dx_found. Qed.
 
+
+(* the shard manager: whatever ShardFileManager::chunk_hash_dedup_query reports -- from the in-memory shard, or routed through
+   the capped index to a registered or flushed shard file -- is a real run of a block the manager was told about (added, or
+   part of a registered shard, under that shard's key); the routed query never fails.  Any sequence of add / flush / register *)
+Theorem C05_manager_truthful : forall ra cap target ops qs, shards_ok ops -> N.of_nat (length ops) <= 65536 -> qs <> [] ->
+  let g := mgr_run ra cap target ops in
+  exists r, mgr_dedup g qs = Found r /\
+    forall n sg, r = Some (n, sg) -> 1 <= n -> exists key blk, Told ops key blk /\ truthful key blk qs n sg.
+Proof. exact mgr_dedup_truthful. Qed.
+(* the index alone: every entry points at a registered shard of its collection and at a chunk with that truncated hash *)
+Theorem C05_manager_index_sound : forall cap ops, N.of_nat (length ops) <= 65536 -> BookOk (fold_left (register cap) ops book0).
+Proof. exact registered_index_ok. Qed.
+
 Print Assumptions C05_direct_truthful.
 Print Assumptions C05_direct_bytes_is_rec.
 Print Assumptions C05_inmem_truthful.
@@ -85,3 +99,5 @@ Print Assumptions C05_local_lookup_truthful.
 Print Assumptions C05_ondisk_truthful_end_to_end.
 Print Assumptions C05_ondisk_complete.
 Print Assumptions C05_ondisk_complete_example.
+Print Assumptions C05_manager_truthful.
+Print Assumptions C05_manager_index_sound.
